@@ -251,3 +251,60 @@ package types
 //@ theory coins keys bytes bat
 //@ ensures [C18] fixed_length: (err == NoErr) <==> len(requestID) == 58
 //@ ensures [C18] decodes_context_batch_height_index: err == NoErr ==> result0 == ridCtx(requestID) && result1 == ridBatch(requestID) && result2 == ridHeight(requestID) && result3 == ridIndex(requestID)
+
+// ---------------------------------------------------------------- stateless validation (A2): what ValidateBasic establishes for the handlers
+// The SDK runs ValidateBasic before routing a message; the facts the handler contracts require under the label a2_validated are proved here
+// from the bodies of the ValidateBasic methods (helpers that contribute nothing to those facts are assumed pure, with no postcondition).
+//@ func ValidateServiceDeposit
+//@ props C20 C03
+//@ ensures no_negative_amount: err == NoErr ==> (forall d Str :: {amt(deposit, d)} amt(deposit, d) >= 0)
+
+//@ func ValidateWithdrawAddress
+//@ props C20 C13
+//@ ensures present: err == NoErr ==> len(withdrawAddress) > 0
+
+//@ func (MsgBindService).ValidateBasic
+//@ props C20 C03
+//@ ensures [C20,C03] deposit_has_no_negative_amount: err == NoErr ==> (forall d Str :: {amt(msg.Deposit, d)} amt(msg.Deposit, d) >= 0)
+
+//@ func (MsgUpdateServiceBinding).ValidateBasic
+//@ props C20 C03
+//@ ensures [C20,C03] deposit_has_no_negative_amount: err == NoErr ==> (forall d Str :: {amt(msg.Deposit, d)} amt(msg.Deposit, d) >= 0)
+
+//@ func (MsgEnableServiceBinding).ValidateBasic
+//@ props C20 C03
+//@ ensures [C20,C03] deposit_has_no_negative_amount: err == NoErr ==> (forall d Str :: {amt(msg.Deposit, d)} amt(msg.Deposit, d) >= 0)
+
+//@ func (MsgSetWithdrawAddress).ValidateBasic
+//@ props C20 C13
+//@ ensures [C20,C13] withdrawal_address_present: err == NoErr ==> len(msg.WithdrawAddress) > 0
+
+//@ func (MsgUpdateRequestContext).ValidateBasic
+//@ props C20 C09 C18
+//@ ensures [C20,C09,C18] timeout_not_negative_at_most_ten_providers: err == NoErr ==> msg.Timeout >= 0 && len(msg.Providers) <= 10
+
+//@ func (MsgCallService).ValidateBasic
+//@ props C20 C10 C18
+//@ ensures [C20,C10,C18] request_parameters_validated: err == NoErr ==> msg.Timeout > 0 && 0 < len(msg.Providers) && len(msg.Providers) <= 10 &&
+//@      (msg.Repeated ==> (msg.RepeatedFrequency == 0 || msg.RepeatedFrequency >= msg.Timeout) && (msg.RepeatedTotal == -1 || msg.RepeatedTotal >= 1))
+
+//@ func ValidateProvider
+//@ trusted
+
+//@ func ValidateOwner
+//@ trusted
+
+//@ func ValidateConsumer
+//@ trusted
+
+//@ func ValidateQoS
+//@ trusted
+
+//@ func ValidateOptions
+//@ trusted
+
+//@ func ValidateBindingPricing
+//@ trusted
+
+//@ func ValidateContextID
+//@ trusted
